@@ -23,7 +23,8 @@ EXPLANATION = (
     "context states a failing statement had opened (shared with C05.R6); (R11) after every user block the next emitted instruction is preceded by a resume point (shared with C05.R2): RESUME NEXT after the last statement of the main module must not run into a subprogram body; (R12) array subscripts and bounds are refused unless castable to a numeric type (shared with C12.R9), so nothing unresolved reaches the generator."
     " (R14 = C05.R11) RESUME label leaves every active call, cutting the VM stacks back to what the outermost call recorded."
     " (R15 = C12.R11) what the casting emitter cannot convert (arrays, records) the checker lets through by value only for a parameter of the same type - evaluated on every pair."
-    " (R16) to_str_unchecked, which panics on anything but a string, is applied only to the arguments of a built-in call (context()[i], typed by the built-in's lint()), never to a variable looked up by name.")
+    " (R16) to_str_unchecked, which panics on anything but a string, is applied only to the arguments of a built-in call (context()[i], typed by the built-in's lint()), never to a variable looked up by name."
+    " (R17 = C03.R4) the call templates write back exactly the list of by-reference arguments they stashed, in the stashing order: nothing stays on the by-reference stack for the enclosing call to pop into a variable of another type.")
 NOT_DECIDED = ["panic-freedom in general (arithmetic overflow in the debug profile, stack depth, panics inside std)"]
 
 PCL = labels.PCL
@@ -645,5 +646,9 @@ def run(ctx):
     from .. import optables as _ot
     c12.r11_no_conversion_between_arrays(ctx, _ot.OpTables(ctx.prog), "C08.R15")
     r16_unchecked_string_reads_are_argument_reads(ctx)
+    # what a call puts on the by-reference stack it takes off again: the list written back is the list stashed
+    # (a copy left behind is popped by the enclosing call into a variable of another type: the VM panics)
+    from . import c03
+    c03.r4_activation_pairing(ctx, "C08.R17")
     from . import panics
     panics.r_audit(ctx, "C08.R6", scope="backend")
